@@ -311,6 +311,22 @@ def directed_cases(rng):
                         q[f"hint::{near}"] = "hn"
                     out.append({"form": {"survey": [{"type": "text", "name": "q0", f"label::{full}": "Q0"}, q],
                                          "settings": [{"default_language": dl}]}, "kw": {}})
+    # blank (whitespace-only) translations — dict / JSON input only: the only filled cell of a column for an element is
+    # blank, for every itext-producing cell kind, on questions, groups and choices
+    for kind in ("label", "hint", "guidance_hint", "constraint_message", "required_message", "image", "audio"):
+        for blank in (" ", "   "):
+            for where in ("question", "group", "choice"):
+                q = {"type": "integer", "name": "n", "label::en": "N", "constraint": ". > 0", "required": "yes"}
+                g = {"type": "begin group", "name": "g", "label::en": "G"}
+                ch = [{"list_name": "c", "name": "a", "label::en": "A"}, {"list_name": "c", "name": "b", "label::en": "B"}]
+                target = {"question": q, "group": g, "choice": ch[1]}[where]
+                if where == "choice" and kind not in ("label", "image", "audio"):
+                    continue
+                if kind == "label":
+                    target.pop("label::en", None)
+                target[f"{kind}::fr"] = blank
+                out.append({"form": {"survey": [g, q, {"type": "select_one c", "name": "s", "label::en": "S"},
+                                                {"type": "end group"}], "choices": ch}, "kw": {}})
     # F45 (repaired, must stay repaired): osm question whose tags have translated labels
     for tagcols in (["label::en", "label::fr"], ["label::en"], ["label"]):
         tags = []
